@@ -2,10 +2,14 @@
 (* Model-checking instance of PackScan: the real geometry, all filler      *)
 (* lengths over more than two periods of block + extension, a family of    *)
 (* contents anchored at the start of the file and at the marker.           *)
-EXTENDS PackScan
+EXTENDS PackScan, IOUtils
 
-MCLengths == 0..8400
-MCZLens == {130, 4200}
+\* the geometry of the real scanner is handed over by the harness (tool.VerifPackGeometry)
+EnvB1 == atoi(IOEnv.VERIF_B1)
+EnvB2 == atoi(IOEnv.VERIF_B2)
+EnvMLen == atoi(IOEnv.VERIF_MLEN)
+MCLengths == 0..(2 * (EnvB1 + EnvB2) + 152)
+MCZLens == {130, EnvB1 + 104}
 None == [stride |-> 0, from |-> 0, singles |-> {}, partials |-> {}, zhash |-> {}]
 MCDescs == {"plain", "dense", "first", "last1", "back5", "back17", "back28", "back29", "back45", "back4097", "back4125",
             "tailpartial", "nearpartial", "midpartial", "block2on", "late", "zhash", "firstzhash"}
@@ -19,13 +23,13 @@ MCDesc(n, len) ==
     [] n = "back28"      -> [None EXCEPT !.singles = {len - 28}]
     [] n = "back29"      -> [None EXCEPT !.singles = {len - 29}]
     [] n = "back45"      -> [None EXCEPT !.singles = {len - 45}]
-    [] n = "back4097"    -> [None EXCEPT !.singles = {len - 4097}]
-    [] n = "back4125"    -> [None EXCEPT !.singles = {len - 4125}]
+    [] n = "back4097"    -> [None EXCEPT !.singles = {len - EnvB1 - 1}]
+    [] n = "back4125"    -> [None EXCEPT !.singles = {len - EnvB1 - EnvB2 - 1}]
     [] n = "tailpartial" -> [None EXCEPT !.partials = {<<len - 17, 16>>}]
     [] n = "nearpartial" -> [None EXCEPT !.partials = {<<len - 30, 12>>}]
-    [] n = "midpartial"  -> [None EXCEPT !.partials = {<<len - 4100, 16>>, <<3, 5>>}]
-    [] n = "block2on"    -> [None EXCEPT !.stride = 509, !.from = 4096]
-    [] n = "late"        -> [None EXCEPT !.stride = 61, !.from = 4124]
+    [] n = "midpartial"  -> [None EXCEPT !.partials = {<<len - EnvB1 - 4, 16>>, <<3, 5>>}]
+    [] n = "block2on"    -> [None EXCEPT !.stride = 509, !.from = EnvB1]
+    [] n = "late"        -> [None EXCEPT !.stride = 61, !.from = EnvB1 + EnvB2]
     [] n = "zhash"       -> [None EXCEPT !.zhash = {5, 300}]
     [] n = "firstzhash"  -> [None EXCEPT !.singles = {0}, !.zhash = {0}]
 =============================================================================
